@@ -65,6 +65,15 @@ static void mode_c06() {
                                  for (uint32_t b = 0; b < s.nb; b++) { boost::multi_array<projection_t, 1> p(boost::extents[s.n]); for (uint32_t x = 0; x < s.n; x++) p[x] = (float)rho[(size_t)b * s.n + x]; ps->setProjection(0, b, p); } }
             M.ev("fields_with_call_history");
         }
+        // ... nor on a padding request made while the profiles were other ones (padBunchProfiles() is public; the results writer uses it):
+        // one field in four is asked to pad another set of profiles right before the wake of the real ones is requested
+        if ((c / 3) % 4 == 2) {
+            std::vector<double> other; Rng r3(M.seed, c, 977); set_profiles(r3, ps, s, other, (flavour + 2) % 3);
+            ef.padBunchProfiles();
+            for (uint32_t b = 0; b < s.nb; b++) { boost::multi_array<projection_t, 1> p(boost::extents[s.n]); for (uint32_t x = 0; x < s.n; x++) p[x] = (float)rho[(size_t)b * s.n + x]; ps->setProjection(0, b, p); }
+            history = true;
+            M.ev("fields_padded_with_other_profiles_right_before_the_wake_request");
+        }
         const meshaxis_t* w = ef.wakePotential();
         // reference
         size_t kmax = s.N / 2;   // bins 0 .. floor(N/2)-1 are used
